@@ -120,6 +120,33 @@ func main() {
 				continue
 			}
 			exit = 1
+			// both forms violate the property: print the reports that are present in both (by rule and construct); if the
+			// two forms name different constructs, print those of the program as written
+			if len(secondViewKeys) > 0 {
+				lines := strings.Split(buf.String(), "\n")
+				var kept []string
+				nkept := 0
+				for i := 0; i < len(lines); i++ {
+					k := reportKey(lines[i])
+					if k == "" {
+						kept = append(kept, lines[i])
+						continue
+					}
+					if secondViewKeys[k] {
+						kept = append(kept, lines[i])
+						nkept++
+						continue
+					}
+					// drop the report and the VIOLATION line that follows it
+					if i+1 < len(lines) && strings.HasPrefix(lines[i+1], "VIOLATION ") {
+						i++
+					}
+				}
+				if nkept > 0 {
+					fmt.Print(strings.Join(kept, "\n"))
+					continue
+				}
+			}
 		}
 		fmt.Print(buf.String())
 	}
@@ -257,6 +284,7 @@ var inlinedOverlayCache struct {
 // sub-process. ok=true means the property holds there: the reports of the first view were artefacts of where function
 // boundaries lie, and the evidence of the second view is installed as this run's evidence.
 func tryInlinedView(e *Engine, overlay map[string][]byte, id, tier, repo, verif, firstOut string) (string, bool) {
+	secondViewKeys = nil
 	if os.Getenv("FXCHECK_NOINLINE") != "" {
 		return "", false
 	}
@@ -323,6 +351,14 @@ func tryInlinedView(e *Engine, overlay map[string][]byte, id, tier, repo, verif,
 		fmt.Fprintf(os.Stderr, "INLINE-DEBUG folded=%d dir=%s files=%v err=%v\n%s\n", c.n, c.dir, c.files, err, out)
 	}
 	if err != nil || strings.Contains(out, "LOAD-ERROR") || strings.Contains(out, "VIOLATION ") {
+		if !strings.Contains(out, "LOAD-ERROR") {
+			secondViewKeys = map[string]bool{}
+			for _, l := range strings.Split(out, "\n") {
+				if k := reportKey(l); k != "" {
+					secondViewKeys[k] = true
+				}
+			}
+		}
 		return "", false
 	}
 	evb, err := os.ReadFile(filepath.Join(vdir, "evidence", id+".json"))
@@ -368,4 +404,23 @@ func tryInlinedView(e *Engine, overlay map[string][]byte, id, tier, repo, verif,
 	}
 	keep = append(keep, fmt.Sprintf("NORMAL-FORM property=%s round=%d: %d report(s) on the program as written are absent from the helper-inlined equivalent program (%d calls folded)", id, round+1, len(firstReports), c.n))
 	return strings.Join(keep, "\n") + "\n", true
+}
+
+
+var secondViewKeys map[string]bool
+
+// reportKey: "rule|construct" of a REPORT line ("REPORT C13 R2 violated: <construct> -- detail"), "" for other lines.
+func reportKey(l string) string {
+	if !strings.HasPrefix(l, "REPORT ") {
+		return ""
+	}
+	f := strings.SplitN(l, " ", 5)
+	if len(f) < 5 {
+		return ""
+	}
+	rest := f[4]
+	if i := strings.Index(rest, " -- "); i >= 0 {
+		rest = rest[:i]
+	}
+	return f[2] + "|" + rest
 }
